@@ -54,7 +54,7 @@ typedef struct {
     volatile int stop;       /* deadline or cap hit */
     volatile int nondet;     /* determinism failure */
     uint64_t executions, pruned, ok, horizon_hits, timeouts, transitions, ops,
-        states, devlist_overflow, frontier_overflow, cps;
+        states, devlist_overflow, frontier_overflow, cps, p_alts;
     long max_frontier;
     int nout;
     outent out[MAXOUT];
@@ -253,7 +253,7 @@ static void worker(int wi)
     cpu_set_t cs;
     CPU_ZERO(&cs);
     long ncpu = sysconf(_SC_NPROCESSORS_ONLN);
-    CPU_SET(wi % ncpu, &cs);
+    CPU_SET((wi + (int)(getppid() % ncpu)) % ncpu, &cs);
     sched_setaffinity(0, sizeof(cs), &cs);
     char path[256];
     snprintf(path, sizeof(path), "%s/err.%d.%d", opt_tmp, (int)getppid(), wi);
@@ -384,6 +384,8 @@ static void worker(int wi)
                 S->cps++;
                 for (int a = 1; a < cp->nalt; a++) {
                     int k = cp->altkind[a];
+                    if (k == ABTMC_B_P)
+                        S->p_alts++;
                     if (k != ABTMC_B_FREE && spent[k] >= cur_bound[k])
                         continue;
                     if (e.ndev + 1 > ABTMC_MAXDEV) {
@@ -706,7 +708,7 @@ int abtmc_main(int argc, char **argv, const abtmc_driver *d)
         for (int P = opt_iter ? 0 : opt_P; P <= opt_P; P++) {
             /* keep outcomes/violations/samples across levels */
             S->executions = S->states = S->transitions = S->pruned = 0;
-            S->horizon_hits = S->ops = S->cps = 0;
+            S->horizon_hits = S->ops = S->cps = S->p_alts = 0;
             drained = explore_level(cfg, P, opt_T, opt_E);
             agg_exec += S->executions;
             agg_trans += S->transitions;
@@ -720,6 +722,12 @@ int abtmc_main(int argc, char **argv, const abtmc_driver *d)
                 completedP = P;
             if (!drained || S->nviol || S->nondet)
                 break;
+            if (S->p_alts == 0) {
+                /* no preemption alternative exists anywhere: higher
+                 * preemption bounds explore exactly the same executions */
+                completedP = opt_P;
+                break;
+            }
         }
         fprintf(out, "%s{\"index\":%d,\"name\":", firstcfg ? "" : ",", cfg);
         firstcfg = 0;
